@@ -168,10 +168,29 @@ theorem late_report_is_recorded (w : Worker V) (a t : Nat) (pa : Proc V) (e : Er
     (hp : w.ex.getProc a = some pa) (haw : pa.stillAwaiting t = true) :
     ∃ w' pa', w.updateAwaitResults a [(t, some (.err e))] = .ok w' ∧ w'.ex.getProc a = some pa' ∧
       pa'.knownResults t = some (.err e) ∧ pa'.result = pa.result ∧ pa'.mailbox = pa.mailbox ∧ pa'.sel = pa.sel := by
-  refine ⟨{ w with ex := w.ex.notifyFailure a t e }, pa.recordFailure t e, ?_, ?_, ?_, rfl, rfl, rfl⟩
+  refine ⟨{ w with ex := (w.ex.notifyFailure a t e).wake a }, pa.recordFailure t e, ?_, ?_, ?_, rfl, rfl, rfl⟩
   · simp [Worker.updateAwaitResults, Worker.notifyResults, Worker.notifyResult]
   · simp only [Exec.notifyFailure, hp, haw, if_true, getProc_wake, getProc_setProc_self]
   · simp [Proc.knownResults, Proc.recordFailure, amLookup_insert_self]
+
+/-- Any await answer — with results, without, or with results the awaiter no longer cares about —
+    leaves no parked select behind (fix 755cedc: before, an answer whose only entry was a stale
+    failure was ignored AND did not wake: the select never started, its timeout never ran). -/
+theorem await_answer_always_wakes (w w' : Worker V) (a : Nat) (results : AMap (Option (WireRes V)))
+    (h : w.updateAwaitResults a results = .ok w') : a ∉ w'.ex.selecting := by
+  unfold Worker.updateAwaitResults at h
+  cases hn : w.notifyResults a results false with
+  | error e => rw [hn] at h; cases h
+  | ok x =>
+    obtain ⟨w1, any⟩ := x
+    rw [hn] at h
+    simp only [Except.ok.injEq] at h
+    subst h
+    simp only []
+    unfold Exec.wake
+    split
+    · simp [List.mem_filter]
+    · assumption
 
 /-! ## Effect failures -/
 
@@ -250,7 +269,7 @@ theorem handle_command_total (w : Worker V) (c : Cmd V) (h : CmdOK w c) :
     simp only [CmdOK] at h
     obtain ⟨w', any', hr⟩ := notifyResults_total a results w false h
     simp only [Worker.handleCommand, Worker.updateAwaitResults, hr]
-    cases any' <;> simp
+    exact ⟨_, _, rfl⟩
   | queryAndAwait a ts => simp [Worker.handleCommand]
   | effectCompletion pid r =>
     simp only [CmdOK] at h
